@@ -1,6 +1,6 @@
 (* C05 - when a connection dies every caller is released with an error (I/O-thread side).
    This file only pins statements. *)
-From Amq Require Import Lib.Base Gen.Consts Model.Wire Model.Frames Model.OutBuf Model.Collector Model.Slots Model.Core Spec.Slots Spec.Content Proofs.Slots Proofs.OutBuf Proofs.Collector Proofs.CoreContent Proofs.CoreInv Proofs.CoreMore.
+From Amq Require Import Lib.Base Gen.Consts Model.Wire Model.Frames Model.OutBuf Model.Collector Model.Slots Model.Core Spec.Slots Spec.Content Proofs.Slots Proofs.OutBuf Proofs.Collector Proofs.CoreContent Proofs.CoreInv Proofs.CoreMore Check.Core Proofs.Examples.
 
 (* a read that ends in EOF / an I/O error / an unparsable frame after frames that were all processed: the event's outcome is the error that names it (unless the close handshake had completed) *)
 Theorem C05_fatal_read : forall (c : core) (fs : list dframe) (t : rterm) (c2 : core), process_all c fs = (OOk, c2) -> is_client_closed c2 = false -> fst (fst (handle_event c (EvStream None (Some (fs, t))))) = term_outcome t.
@@ -30,6 +30,14 @@ Proof. exact teardown_releases. Qed.
 Theorem C05_releases_ch0 : forall (c : core) (z : ch0slot), c_ch0 c = Some z -> tx_gone (z_reply z) (c_qs (teardown c)) /\ tx_gone (z_alloc_rep z) (c_qs (teardown c)).
 Proof. exact teardown_releases_ch0. Qed.
 
+(* non-vacuity of C05_releases_*: in a reachable state with two channels and a consumer on
+   each, every queue has a live sender; after the thread's state is dropped none has *)
+Example C05_example :
+  forallb snd (ex_senders ex_two_channels) = true /\
+  existsb snd (ex_senders (teardown ex_two_channels)) = false /\
+  length (c_qs (teardown ex_two_channels)) = 6%nat.
+Proof. vm_compute. repeat split. Qed.
+
 Check C05_fatal_read : forall (c : core) (fs : list dframe) (t : rterm) (c2 : core), process_all c fs = (OOk, c2) -> is_client_closed c2 = false -> fst (fst (handle_event c (EvStream None (Some (fs, t))))) = term_outcome t.
 Check C05_fatal_outcomes : term_outcome TEof = OErr EUnexpectedSocketClose /\ term_outcome TIoErr = OErr EIoRead /\ term_outcome TMalformed = OErr EMalformed /\ term_outcome TBlock = OOk.
 Check C05_fatal_write : forall (c : core) (oracle : list wr) (r : option (list dframe * rterm)) (bs : bytes) (wr0 : wres) (ob' : outbuf) (rest : list wr), write_to_stream (c_out c) oracle = (bs, wr0, ob', rest) -> wr0 = WIoErr -> fst (fst (handle_event c (EvStream (Some oracle) r))) = OErr EIoWrite.
@@ -45,3 +53,4 @@ Print Assumptions C05_missed_heartbeats.
 Print Assumptions C05_final_results.
 Print Assumptions C05_releases_slots.
 Print Assumptions C05_releases_ch0.
+Print Assumptions C05_example.
